@@ -23,19 +23,43 @@ import (
 	"verif/internal/oracle/rg"
 )
 
+// chainOp is one step applied to an EditableGraph value.  The compound kinds
+// are applied without any observation in between.
+//
+//	'c' Contract(g,i,j)            's' SplitEdge(g,i,j)
+//	'a' g.AddEdge(i,j)             'r' g.RemoveEdge(i,j)
+//	'm' move an edge:   g.RemoveEdge(i,j); g.AddEdge(k,l)        (M unchanged if ij was an edge and kl was not)
+//	'x' the same in the other order: g.AddEdge(k,l); g.RemoveEdge(i,j)
+//	'w' swap two edges: g.RemoveEdge(i,j); g.RemoveEdge(k,l); g.AddEdge(i,k); g.AddEdge(j,l)
+//	'v' g.AddVertex(list)          'd' g.RemoveVertex(i)
 type chainOp struct {
-	kind byte // 'c' Contract(g,i,j), 's' SplitEdge(g,i,j)
+	kind byte
 	i, j int
+	k, l int
+	list []int
 }
 
-func (o chainOp) name() string {
-	if o.kind == 'c' {
-		return "Contract"
+var opNames = map[byte]string{'c': "Contract", 's': "SplitEdge", 'a': "AddEdge", 'r': "RemoveEdge", 'm': "move-edge", 'x': "add-then-remove-edge", 'w': "swap-edges", 'v': "AddVertex", 'd': "RemoveVertex"}
+
+func (o chainOp) name() string { return opNames[o.kind] }
+
+func (o chainOp) String() string {
+	switch o.kind {
+	case 'c', 's':
+		return fmt.Sprintf("%s(g,%d,%d)", o.name(), o.i, o.j)
+	case 'a', 'r':
+		return fmt.Sprintf("g.%s(%d,%d)", o.name(), o.i, o.j)
+	case 'm':
+		return fmt.Sprintf("g.RemoveEdge(%d,%d)+g.AddEdge(%d,%d)", o.i, o.j, o.k, o.l)
+	case 'x':
+		return fmt.Sprintf("g.AddEdge(%d,%d)+g.RemoveEdge(%d,%d)", o.k, o.l, o.i, o.j)
+	case 'w':
+		return fmt.Sprintf("g.RemoveEdge(%d,%d)+g.RemoveEdge(%d,%d)+g.AddEdge(%d,%d)+g.AddEdge(%d,%d)", o.i, o.j, o.k, o.l, o.i, o.k, o.j, o.l)
+	case 'v':
+		return fmt.Sprintf("g.AddVertex(%v)", o.list)
 	}
-	return "SplitEdge"
+	return fmt.Sprintf("g.RemoveVertex(%d)", o.i)
 }
-
-func (o chainOp) String() string { return fmt.Sprintf("%s(g,%d,%d)", o.name(), o.i, o.j) }
 
 func opsString(ops []chainOp) string {
 	p := make([]string, len(ops))
@@ -48,14 +72,65 @@ func opsString(ops []chainOp) string {
 // applyModel is the documented effect of the operation on the model.
 func applyModel(m *rg.G, o chainOp) *rg.G {
 	r := m.Copy()
-	if o.kind == 'c' {
+	switch o.kind {
+	case 'c':
 		for _, v := range m.Nbrs(o.j) {
 			r.Add(o.i, v)
 		}
 		return r.RemoveVertex(o.j)
+	case 's':
+		r.Del(o.i, o.j)
+		return r.AddVertex([]int{o.i, o.j})
+	case 'a':
+		r.Add(o.i, o.j)
+	case 'r':
+		r.Del(o.i, o.j)
+	case 'm':
+		r.Del(o.i, o.j)
+		r.Add(o.k, o.l)
+	case 'x':
+		r.Add(o.k, o.l)
+		r.Del(o.i, o.j)
+	case 'w':
+		r.Del(o.i, o.j)
+		r.Del(o.k, o.l)
+		r.Add(o.i, o.k)
+		r.Add(o.j, o.l)
+	case 'v':
+		return r.AddVertex(o.list)
+	case 'd':
+		return r.RemoveVertex(o.i)
 	}
-	r.Del(o.i, o.j)
-	return r.AddVertex([]int{o.i, o.j})
+	return r
+}
+
+// applyLib performs the operation on the library value (call it inside c.Call).
+func applyLib(h graph.EditableGraph, o chainOp) {
+	switch o.kind {
+	case 'c':
+		graph.Contract(h, o.i, o.j)
+	case 's':
+		graph.SplitEdge(h, o.i, o.j)
+	case 'a':
+		h.AddEdge(o.i, o.j)
+	case 'r':
+		h.RemoveEdge(o.i, o.j)
+	case 'm':
+		h.RemoveEdge(o.i, o.j)
+		h.AddEdge(o.k, o.l)
+	case 'x':
+		h.AddEdge(o.k, o.l)
+		h.RemoveEdge(o.i, o.j)
+	case 'w':
+		h.RemoveEdge(o.i, o.j)
+		h.RemoveEdge(o.k, o.l)
+		h.AddEdge(o.i, o.k)
+		h.AddEdge(o.j, o.l)
+	case 'v':
+		h.AddVertex(append([]int{}, o.list...))
+	case 'd':
+		h.RemoveVertex(o.i)
+	}
 }
 
 // opsAt lists every operation that is defined on a graph with n vertices:
@@ -65,9 +140,9 @@ func opsAt(n int) []chainOp {
 	var r []chainOp
 	for i := 0; i < n; i++ {
 		for j := 0; j < n; j++ {
-			r = append(r, chainOp{'c', i, j})
+			r = append(r, chainOp{kind: 'c', i: i, j: j})
 			if i != j {
-				r = append(r, chainOp{'s', i, j})
+				r = append(r, chainOp{kind: 's', i: i, j: j})
 			}
 		}
 	}
@@ -311,13 +386,7 @@ func (r *runner) runChain(st chainStart, ops []chainOp, everyStep bool, views in
 	for k, o := range ops {
 		o := o
 		removedNonLast := o.kind == 'c' && o.j < m.N-1
-		pi := c.Call(caseKey, func() {
-			if o.kind == 'c' {
-				graph.Contract(h, o.i, o.j)
-			} else {
-				graph.SplitEdge(h, o.i, o.j)
-			}
-		})
+		pi := c.Call(caseKey, func() { applyLib(h, o) })
 		if pi != nil {
 			c.Eval(1)
 			r.fail(api, "after-"+o.name()+":panic@"+engine.SiteNoLine(pi.Site), "", detail, pi.String(), "the operation returns")
@@ -561,7 +630,7 @@ func randomOps(rnd *engine.Rng, m *rg.G, L int) []chainOp {
 					i, j = j, i
 				}
 			}
-			o = chainOp{'s', i, j}
+			o = chainOp{kind: 's', i: i, j: j}
 		} else {
 			i, j := rnd.Intn(n), rnd.Intn(n)
 			if es := m.Edges(); len(es) > 0 && rnd.Bool(0.6) {
@@ -571,7 +640,7 @@ func randomOps(rnd *engine.Rng, m *rg.G, L int) []chainOp {
 					i, j = j, i
 				}
 			}
-			o = chainOp{'c', i, j}
+			o = chainOp{kind: 'c', i: i, j: j}
 		}
 		ops = append(ops, o)
 		m = applyModel(m, o)
